@@ -372,6 +372,8 @@ def run_check(check_cls, tier, seed, replay=None):
 
 def _write_evidence(check, agg, results, wall, unmet=None, new_violations=(), known_hits=None,
                     note=None):
+    if os.environ.get('VERIF_NO_EVIDENCE'):
+        return          # mutation campaign runs against scratch copies must not rewrite evidence
     paths.EVIDENCE.mkdir(parents=True, exist_ok=True)
     cov = {'evaluations': 0, 'distinct_nontrivial': 0, 'rule': check.rule, 'samples': []}
     if agg is not None:
